@@ -112,10 +112,12 @@ class Check:
         lines = []
         for inst, what in known_hits:
             lines.append("KNOWN-FINDING: property=%s %s [%s at %s]" % (self.pid, what, inst["key"], inst["loc"]))
+        noev = bool(os.environ.get("VERIF_NO_EVIDENCE"))
         for n, inst in enumerate(viol):
             rp = os.path.join(evdir, "replay", "%s-%d.json" % (self.pid, n))
-            with open(rp, "w") as fh:
-                json.dump({"property": self.pid, **inst}, fh, indent=1)
+            if not noev:
+                with open(rp, "w") as fh:
+                    json.dump({"property": self.pid, **inst}, fh, indent=1)
             kind = "anchor-lost" if inst["verdict"] == "anchor-lost" else "violation"
             lines.append("%s: property=%s rule=%s at %s\n    key=%s\n    %s%s" % (
                 kind.upper(), self.pid, inst["rule"], inst["loc"], inst["key"], inst["detail"],
@@ -155,7 +157,7 @@ class Check:
             "wall_s": round(time.time() - self.t0, 2),
             "violations": len(viol),
         }
-        if not self.replay_filter:
+        if not self.replay_filter and not noev:
             with open(os.path.join(evdir, "%s.json" % self.pid), "w") as fh:
                 json.dump(ev, fh, indent=1)
         try:
